@@ -15,7 +15,9 @@ Positions == {"only", "first", "middle", "last"}
 Value(c, p) == CASE p = "only" -> c [] p = "first" -> c \o "yz" [] p = "middle" -> "ab" \o c \o "yz" [] p = "last" -> "ab" \o c
 IndexIn(p) == CASE p = "only" -> 0 [] p = "first" -> 0 [] p = "middle" -> 2 [] p = "last" -> 2
 Paths == {"print", "assign", "concat", "compare", "arg", "ret", "slice", "range", "subscript", "len", "file", "multi"}
-Origins == IF Quick THEN {"lit", "inline", "file"} ELSE {"lit", "inline", "raw", "file", "stdin", "cmd"}
+Origins == IF Quick THEN {"lit", "inline", "file"} ELSE {"lit", "inline", "raw", "file", "stdin", "stdinp", "cmd"}
+\* the whole values are also typed in at a prompt (none, a literal one, one held in a variable), in every tier
+SOrigins == Origins \cup {"stdin", "stdinp", "stdinpv"}
 
 \* statements that bring the value into variable s (and a second, equal value into s2)
 Obtain(o, v) ==
@@ -24,11 +26,13 @@ Obtain(o, v) ==
     [] o = "raw" -> <<Def1("s", RawStr(v)), Def1("s2", RawStr(v))>>
     [] o = "file" -> <<Def1("s", ReadE(StrL("in.txt"))), Def1("s2", ReadE(StrL("in.txt")))>>
     [] o = "stdin" -> <<Def1("s", Input(NoneN)), Def1("s2", Input(NoneN))>>
+    [] o = "stdinp" -> <<Def1("s", Input(StrL("Name: "))), Def1("s2", Input(StrL(">")))>>
+    [] o = "stdinpv" -> <<Def1("pr", StrL(" * value? ")), Def1("s", Input(Var("pr"))), Def1("s2", Input(Bin("+", Var("pr"), StrL("again "))))>>
     \* the probe command `pa` prints "pa", a newline and then copies its standard input: the value arrives as command output
     [] o = "cmd" -> <<Def(<<"s0", "e1", "c1">>, <<App(<<Stage("pa", <<>>)>>)>>), Def1("s", Substr(Var("s0"), I(3), NoneN)), Def1("s2", Substr(Var("s0"), I(3), NoneN))>>
 World(o, v) ==
   CASE o = "file" -> [fs |-> <<[path |-> "in.txt", content |-> v \o "\n"]>>, stdin |-> <<>>]
-    [] o = "stdin" -> [fs |-> <<>>, stdin |-> <<v, v>>]
+    [] o \in {"stdin", "stdinp", "stdinpv"} -> [fs |-> <<>>, stdin |-> <<v, v>>]
     [] o = "cmd" -> [fs |-> <<>>, stdin |-> <<v>>]
     [] OTHER -> [fs |-> <<>>, stdin |-> <<>>]
 \* S and S2 are the expressions that denote the value: variables (origins above) or the literal itself ("inline")
@@ -56,15 +60,15 @@ Mk(c, p, path, o) == [id |-> "C08/" \o path \o "/" \o o \o "/" \o p \o "/x" \o H
                       check |-> <<"fs">>]
 \* a newline inside a value obtained from stdin or as the last character of a file is not a value of those origins
 LegalPath(path, o) == ~(o = "inline" /\ path = "subscript")          \* a literal cannot be subscripted in the grammar
-Legal(c, p, o) == ~(c = "\n" /\ (o = "stdin" \/ (o \in {"file", "cmd"} /\ p \in {"last", "only"}))) /\ ~(o = "raw" /\ c = "`")
+Legal(c, p, o) == ~(c = "\n" /\ (o \in {"stdin", "stdinp", "stdinpv"} \/ (o \in {"file", "cmd"} /\ p \in {"last", "only"}))) /\ ~(o = "raw" /\ c = "`")
 
 \* whole values named in the property: leading dashes, glob characters, leading/trailing/repeated blanks, things a shell would execute
 Specials == <<"-n", "-e", "-E", "-n x", "-", "--", "-ne", "*", " * ", "?", "[a]", "a  b", "   ", " lead", "trail ", "  two  ", "~", "~root", "#c", "a #c", "a;b", "a&b", "a|b", "a>b", "a<b", "(a)", "{a,b}", "!x", "a=b", "x y z", "%s", "\\n",
               "$HOME", "${PATH}", "$(touch CANARY)", "`touch CANARY`", "a;touch CANARY", "&& touch CANARY", "| touch CANARY", "> CANARY", "\"; touch CANARY; \"", "'q'", "it's", "1 -eq 1", "0", "", "-1", "true", " ", "\t", " \t ">>     \* new values are appended: the recorded findings name values by position
 MkS(i, path, o) == [id |-> "C08s/" \o path \o "/" \o o \o "/v" \o ToString(i),
                     prog |-> [body |-> Obtain(o, Specials[i]) \o (IF o = "inline" THEN Use(path, "only", StrL(Specials[i]), StrL(Specials[i])) ELSE Use(path, "only", Var("s"), Var("s2"))), world |-> World(o, Specials[i])], check |-> <<"fs">>]
-SpecialCases == {MkS(i, path, o) : i \in {j \in 1..Len(Specials) : Specials[j] # ""} , path \in Paths \ {"subscript"}, o \in Origins}
-                \cup {MkS(i, path, o) : i \in {j \in 1..Len(Specials) : Specials[j] = ""}, path \in Paths \ {"subscript", "range"}, o \in Origins \ {"stdin", "file", "cmd", "inline"}}
+SpecialCases == {MkS(i, path, o) : i \in {j \in 1..Len(Specials) : Specials[j] # ""} , path \in Paths \ {"subscript"}, o \in SOrigins}
+                \cup {MkS(i, path, o) : i \in {j \in 1..Len(Specials) : Specials[j] = ""}, path \in Paths \ {"subscript", "range"}, o \in Origins \ {"stdin", "stdinp", "file", "cmd", "inline"}}
 ASSUME ndJsonSerialize("fam.ndjson", SetToSeq(UNION {IF Legal(t[1], t[2], t[3]) THEN {Mk(t[1], t[2], path, t[3]) : path \in {q \in Paths : LegalPath(q, t[3])}} ELSE {}
                                                     : t \in Chars \X Positions \X Origins} \cup SpecialCases))
 =============================================================================
